@@ -1689,7 +1689,22 @@ pub fn from_reader_with_options<'a, R: std::io::Read + 'a, T: DeserializeOwned>(
         match shared_ring.get_recent() {
             Ok(snapshot) => {
                 let text = String::from_utf8_lossy(&snapshot.bytes);
-                e.with_snippet_offset(&text, snapshot.start_line, crop_radius)
+                let mut text: &str = &text;
+                let mut start_line = snapshot.start_line;
+                if snapshot.start_offset > 0 {
+                    // The retained window does not begin at the start of the stream, so its first
+                    // line may be the tail of a longer line. Columns on such a partial line would
+                    // be counted from the window start and the marker would end up under the
+                    // wrong text: leave that line out.
+                    match text.find('\n') {
+                        Some(i) => {
+                            text = &text[i + 1..];
+                            start_line = start_line.saturating_add(1);
+                        }
+                        None => return e,
+                    }
+                }
+                e.with_snippet_offset(text, start_line, crop_radius)
             }
             Err(_) => e, // If we can't get the snapshot, return the error as-is
         }
